@@ -528,7 +528,7 @@ META = dict(
 )
 
 MANIFEST = dict(
-    text="For C15: exact-real lemmas on terms produced by running the real quatfit/utilities functions on proxies - q2mat(q) orthogonal with det +1 and R(-q)=R(q) for every unit q; q^T.cmat.q = sum ref.(R(q).def) for every q and every point set (1-3 points; ties the sign/index conventions of qtrfit, q2mat and rotmol); find_coordinates = refcentre + R(q)(atom - defcentre) and translation-equivariant; qchichange = right-handed Rodrigues rotation preserving length and axial component for every unit axis and angle (abstract cos/sin) and for concrete angles beyond half a turn and beyond a full turn through the real math module; after set_dihedral_angle the recorded torsion is the torsion of the current coordinates (dihedral uninterpreted); rotating atom 4 by delta turns the (cos, sin) of the torsion measured by utilities.dihedral by exactly delta and keeps both axis distances; jacobi's no-sweep path leaves the largest eigenvalue's vector in the last column for every real diagonal.",
+    text="For C15: exact-real lemmas on terms produced by running the real quatfit/utilities functions on proxies - q2mat(q) orthogonal with det +1 and R(-q)=R(q) for every unit q; q^T.cmat.q = sum ref.(R(q).def) for every q and every point set (1-3 points; ties the sign/index conventions of qtrfit, q2mat and rotmol); find_coordinates = refcentre + R(q)(atom - defcentre) and translation-equivariant; qchichange = right-handed Rodrigues rotation preserving length and axial component for every unit axis and angle (abstract cos/sin) and for concrete angles beyond half a turn and beyond a full turn through the real math module; after set_dihedral_angle the recorded torsion is the torsion of the current coordinates (dihedral uninterpreted); rotating atom 4 by delta turns the (cos, sin) of the torsion measured by utilities.dihedral by exactly delta and keeps both axis distances; jacobi's no-sweep path leaves the largest eigenvalue's vector in the last column for every real diagonal. Round 4: rotate_tetrahedral turns exactly the substituents of atom2 other than the axis partner, wherever the partner stands in the bond list (selector).",
     note="Trusted: z3 (wheel 5.1.0 and /usr/bin/z3 4.8.12 must not disagree), exact reals for floats, cos/sin abstracted to the unit circle. The Jacobi sweep's convergence and floating-point tolerances are outside; that the top eigenvector maximises the quadratic form is assumed.",
     technique="polynomial lemmas over terms from the real code, decided by z3 QF_NRA (two builds); symbolic paths for jacobi's ordering",
     design="DESIGN.md section 3 C15",
